@@ -1073,5 +1073,600 @@ theorem parseLeaf_toks (fuel : Nat) (t : Tmpl) (hleaf : t.isList = false) (hw : 
     rw [this, hrec]
     cases s; simp_all [PS.pop, namesAfter]
 
+
+theorem listOwnOk_ellipsis_pos (n : Name) (r : Slots) (pos : Nat) (e : Bool) (hn : isEllipsis n = true)
+    (h : listOwnOk (.var n r) pos e = true) : pos ≠ 0 ∧ listOwnOk r (pos + 1) true = true := by
+  have hv : isValidVarName n = false := by
+    cases hvv : isValidVarName n with
+    | false => rfl
+    | true =>
+      -- a valid name starts with a letter or `_`, an ellipsis with `.`
+      cases n with
+      | nil => simp [isEllipsis] at hn
+      | cons b rr =>
+        simp only [isValidVarName, Bool.and_eq_true] at hvv
+        unfold isEllipsis at hn
+        split at hn
+        · rename_i heq
+          injection heq with h1 _
+          subst h1
+          have := hvv.1
+          simp [isIdentStartB, isAlphaB, isUpperB, isLowerB] at this
+        · cases hn
+  simp only [listOwnOk, hv, Bool.false_eq_true, if_false, hn, if_true, Bool.and_eq_true, bne_iff_ne, ne_eq,
+    Bool.not_eq_true'] at h
+  exact ⟨h.1.1, h.2⟩
+
+theorem listOwnOk_plain (n : Name) (r : Slots) (pos : Nat) (e : Bool) (hn : isEllipsis n = false)
+    (h : listOwnOk (.var n r) pos e = true) : listOwnOk r (pos + 1) e = true := by
+  simp only [listOwnOk, hn, Bool.false_eq_true, if_false] at h
+  split at h
+  · exact h
+  · cases h
+
+theorem listLoop_rab (fuel count : Nat) (acc : List GoVal) (s : PS) (hp : s.peek = tk .rab [62]) :
+    parseItemF.listLoop (fuel + 1) count acc s = (ofFactory (mkList acc.reverse), s) := by
+  rw [parseItemF.listLoop]
+  simp only [hp, tk]
+
+theorem listLoop_lab (fuel count : Nat) (acc : List GoVal) (s : PS) (hp : s.peek = tk .lab [60]) (t : Tmpl) (s1 : PS)
+    (hitem : parseItemF fuel s = (.ok t, s1)) :
+    parseItemF.listLoop (fuel + 1) count acc s = parseItemF.listLoop fuel (count + 1) (.item t :: acc) s1 := by
+  rw [parseItemF.listLoop]
+  simp only [hp, tk, hitem]
+
+theorem listLoop_var (fuel count : Nat) (acc : List GoVal) (s : PS) (nm : Name) (hp : s.peek = tk .variable nm)
+    (hc : s.pop.names.contains nm = false) :
+    parseItemF.listLoop (fuel + 1) count acc s =
+      parseItemF.listLoop fuel (count + 1) (.str nm :: acc) (s.pop.addName nm) := by
+  rw [parseItemF.listLoop]
+  simp only [hp, tk, hc, Bool.false_eq_true, if_false]
+
+theorem listLoop_ell (fuel count : Nat) (acc : List GoVal) (s : PS) (hp : s.peek = tk .ellipsis [46, 46, 46])
+    (hc : count ≠ 0) :
+    parseItemF.listLoop (fuel + 1) count acc s =
+      parseItemF.listLoop fuel (count + 1) (.str ([46, 46, 46, 91] ++ decDigits s.pop.ell ++ [93]) :: acc) s.pop.bumpEll := by
+  rw [parseItemF.listLoop]
+  have hc0 : (count == 0) = false := by simpa using hc
+  have hnw : (([46, 46, 46] : Bytes) != [46, 46, 46]) = false := by decide
+  simp only [hp, tk, hc0, Bool.false_eq_true, if_false, hnw, Bool.false_and]
+
+/-- **Parser half of the print → parse round trip for items.** Parsing the printed tokens of a
+well-formed, float-free tree whose names are new and whose ellipses are numbered in order gives
+the tree back, consumes exactly its tokens, and leaves the names and the ellipsis counter as
+the tree dictates. -/
+theorem parse_toks : ∀ fuel : Nat,
+    (∀ (t : Tmpl) (s : PS) (rest : List Tok) (e' : Nat), (itemToks t).length ≤ fuel → t.wf = true → cleanT t = true →
+      s.toks = itemToks t ++ rest → s.skipSize = false → FreshT s.names t → ellAfter s.ell t = some e' →
+      parseItemF fuel s = (.ok t, { s with toks := rest, names := namesAfter s.names t, ell := e' })) ∧
+    (∀ (xs : Slots) (count : Nat) (acc : List GoVal) (eSeen : Bool) (s : PS) (rest : List Tok) (e' : Nat),
+      (slotsToks xs).length + 1 ≤ fuel → xs.wfAll = true → cleanS xs = true → listOwnOk xs count eSeen = true →
+      s.toks = slotsToks xs ++ tk .rab [62] :: rest → s.skipSize = false → FreshS s.names xs → ellAfterS s.ell xs = some e' →
+      parseItemF.listLoop fuel count acc s =
+        (ofFactory (mkList (acc.reverse ++ slotArgs xs)),
+          { s with toks := tk .rab [62] :: rest, names := namesAfterS s.names xs, ell := e' })) := by
+  intro fuel
+  induction fuel with
+  | zero =>
+    constructor
+    · intro t s rest e' hl _ hc
+      obtain ⟨ts, hts⟩ := itemToks_cons t hc
+      rw [hts] at hl; simp at hl
+    · intro xs count acc eSeen s rest e' hl
+      omega
+  | succ n ih =>
+    constructor
+    · -- an item
+      intro t s rest e' hl hw hc hs hskip hfresh hell
+      by_cases hlist : t.isList = false
+      · have := parseLeaf_toks n t hlist hw hc s rest hs hskip hfresh
+        rw [this]
+        have he : e' = s.ell := by
+          cases t <;> simp_all [ellAfter, Tmpl.isList]
+        subst he
+        cases s; rfl
+      · cases t with
+        | list xs =>
+          have hp : s.peek = tk .lab [60] := by simp [PS.peek, hs, itemToks]
+          have hpop : s.pop.toks = tk .itemType [76] :: ((if xs.hasVar then [] else [sizeTok xs.len]) ++ slotsToks xs ++ tk .rab [62] :: rest) := by
+            simp [PS.pop, hs, itemToks]
+          have hwf := hw
+          simp only [Tmpl.wf, Bool.and_eq_true, decide_eq_true_eq] at hwf
+          have hlen : (slotsToks xs).length + 1 ≤ n := by
+            simp only [itemToks, List.length_append, List.length_cons, List.length_nil] at hl
+            split at hl <;> simp at hl <;> omega
+          have hloop := ih.2 xs 0 [] false { s.pop with toks := slotsToks xs ++ tk .rab [62] :: rest } rest e' hlen
+            hwf.1.1.2 (by simpa [cleanT] using hc) hwf.1.2 rfl (by simpa [PS.pop] using hskip)
+            (by simpa [PS.pop, FreshT] using hfresh) (by simpa [PS.pop, ellAfter] using hell)
+          simp only [List.reverse_nil, List.nil_append] at hloop
+          unfold parseItemF
+          simp only [hp]
+          have hk : ((tk Kind.lab [60]).kind != Kind.lab) = false := rfl
+          simp only [hk, Bool.false_eq_true, if_false]
+          have hbody := itemBody_list (parseItemF.listLoop n 0 []) xs hw (by simpa [cleanT] using hc) s.pop rest
+            { s.pop with toks := tk .rab [62] :: rest, names := namesAfterS s.names xs, ell := e' } hpop
+            (by rw [hloop]; cases s; rfl) (by simpa [PS.pop] using hskip)
+          rw [hbody]
+          cases s; rfl
+        | _ => simp [Tmpl.isList] at hlist
+    · -- the elements of a list up to `>`
+      intro xs count acc eSeen s rest e' hl hwa hca hown hs hskip hfresh hell
+      cases xs with
+      | nil =>
+        have hp : s.peek = tk .rab [62] := by simp [PS.peek, hs, slotsToks]
+        rw [listLoop_rab n count acc s hp]
+        have he : e' = s.ell := by simpa [ellAfterS] using hell.symm
+        subst he
+        simp only [slotArgs, List.append_nil, namesAfterS]
+        cases s
+        simp only [slotsToks, List.nil_append] at hs
+        subst hs
+        rfl
+      | item t r =>
+        simp only [Slots.wfAll, Bool.and_eq_true] at hwa
+        simp only [cleanS, Bool.and_eq_true] at hca
+        obtain ⟨ts, hts⟩ := itemToks_cons t hca.1
+        have hp : s.peek = tk .lab [60] := by simp [PS.peek, hs, slotsToks, hts]
+        have hs' : s.toks = itemToks t ++ (slotsToks r ++ tk .rab [62] :: rest) := by simp [hs, slotsToks]
+        simp only [FreshS] at hfresh
+        simp only [ellAfterS] at hell
+        cases hk1 : ellAfter s.ell t with
+        | none => simp [hk1] at hell
+        | some k1 =>
+          simp only [hk1, Option.bind_some] at hell
+          have hlt : (itemToks t).length ≤ n := by
+            simp only [slotsToks, List.length_append] at hl; omega
+          have hitem := ih.1 t s (slotsToks r ++ tk .rab [62] :: rest) k1 hlt hwa.1 hca.1 hs' hskip hfresh.1 hk1
+          have hlr : (slotsToks r).length + 1 ≤ n := by
+            simp only [slotsToks, List.length_append, hts, List.length_cons] at hl; omega
+          have hrest := ih.2 r (count + 1) (GoVal.item t :: acc) eSeen
+            { s with toks := slotsToks r ++ tk .rab [62] :: rest, names := namesAfter s.names t, ell := k1 } rest e' hlr
+            hwa.2 hca.2 (by simpa [listOwnOk] using hown) rfl hskip hfresh.2 hell
+          rw [listLoop_lab n count acc s hp t _ hitem, hrest]
+          simp [slotArgs, namesAfterS]
+      | var nm r =>
+        simp only [Slots.wfAll] at hwa
+        simp only [cleanS] at hca
+        by_cases hn : isEllipsis nm = true
+        · -- an ellipsis: `...`
+          have hp : s.peek = tk .ellipsis [46, 46, 46] := by simp [PS.peek, hs, slotsToks, hn]
+          have hpop : s.pop.toks = slotsToks r ++ tk .rab [62] :: rest := by simp [PS.pop, hs, slotsToks, hn]
+          obtain ⟨hcount, hown'⟩ := listOwnOk_ellipsis_pos nm r count eSeen hn hown
+          simp only [FreshS, hn, if_true] at hfresh
+          simp only [ellAfterS, hn, if_true] at hell
+          by_cases hname : (nm == [46, 46, 46, 91] ++ decDigits s.ell ++ [93]) = true
+          · rw [if_pos hname] at hell
+            have hname' : nm = [46, 46, 46, 91] ++ decDigits s.ell ++ [93] := by simpa using hname
+            have hlr : (slotsToks r).length + 1 ≤ n := by
+              simp only [slotsToks, List.length_cons] at hl; omega
+            have hrest := ih.2 r (count + 1) (GoVal.str nm :: acc) true
+              s.pop.bumpEll rest e' hlr hwa hca hown' (by simpa [PS.bumpEll] using hpop)
+              (by simpa [PS.pop, PS.bumpEll] using hskip)
+              (by simpa [PS.pop, PS.bumpEll] using hfresh) (by simpa [PS.pop, PS.bumpEll] using hell)
+            have hv : ([46, 46, 46, 91] ++ decDigits s.pop.ell ++ [93] : Bytes) = nm := by rw [hname']; rfl
+            rw [listLoop_ell n count acc s hp hcount, hv, hrest]
+            cases s
+            simp [slotArgs, namesAfterS, hn, PS.pop, PS.bumpEll]
+          · rw [if_neg hname] at hell; cases hell
+        · -- an item variable
+          have hn' : isEllipsis nm = false := by simpa using hn
+          have hp : s.peek = tk .variable nm := by simp [PS.peek, hs, slotsToks, hn']
+          have hpop : s.pop.toks = slotsToks r ++ tk .rab [62] :: rest := by simp [PS.pop, hs, slotsToks, hn']
+          simp only [FreshS, hn', Bool.false_eq_true, if_false] at hfresh
+          simp only [ellAfterS, hn', Bool.false_eq_true, if_false] at hell
+          have hlr : (slotsToks r).length + 1 ≤ n := by
+            simp only [slotsToks, List.length_cons] at hl; omega
+          have hrest := ih.2 r (count + 1) (GoVal.str nm :: acc) eSeen
+            (s.pop.addName nm) rest e' hlr hwa hca (listOwnOk_plain nm r count eSeen hn' hown)
+            (by simpa [PS.addName] using hpop) (by simpa [PS.pop, PS.addName] using hskip)
+            (by simpa [PS.pop, PS.addName] using hfresh.2) (by simpa [PS.pop, PS.addName] using hell)
+          have hc : s.pop.names.contains nm = false := by simpa [PS.pop] using hfresh.1
+          rw [listLoop_var n count acc s nm hp hc, hrest]
+          cases s
+          simp [slotArgs, namesAfterS, hn', PS.pop, PS.addName]
+
+
+/-! ### messages -/
+
+def sfTok (st fn : Nat) : Tok := tk .streamFunction (83 :: (decDigits st ++ 70 :: decDigits fn))
+
+theorem indexOf_F (ds tail : Bytes) (h : ∀ c ∈ ds, 48 ≤ c ∧ c ≤ 57) :
+    Lex.indexOf (· == 70) (ds ++ 70 :: tail) = some ds.length := by
+  induction ds with
+  | nil => simp [Lex.indexOf]
+  | cons c r ih =>
+    have hc := h c (by simp)
+    have : (c == 70) = false := by simp; omega
+    simp [Lex.indexOf, this, ih (fun x hx => h x (by simp [hx]))]
+
+theorem streamFunction_sf (s : PS) (st fn : Nat) (hst : st < 128) (hfn : fn < 256) :
+    streamFunction s (sfTok st fn) = ((st : Int), (fn : Int), s) := by
+  have hi : indexByte 70 (sfTok st fn).val = some (1 + (decDigits st).length) := by
+    have := indexOf_F (decDigits st) (decDigits fn) (decDigits_spec st).1
+    simp only [indexByte, sfTok, tk, Lex.indexOf]
+    have h83 : ((83 : Nat) == 70) = false := by decide
+    simp only [h83, Bool.false_eq_true, if_false, this, Option.map_some]
+    congr 1; omega
+  unfold streamFunction
+  simp only [hi, Option.getD_some]
+  have h1 : List.drop 1 (List.take (1 + (decDigits st).length) (sfTok st fn).val) = decDigits st := by
+    simp only [sfTok, tk]
+    rw [Nat.add_comm, List.take_succ_cons, List.take_left]
+    rfl
+  have h2 : List.drop (1 + (decDigits st).length + 1) (sfTok st fn).val = decDigits fn := by
+    simp only [sfTok, tk]
+    have e : 1 + (decDigits st).length + 1 = ((decDigits st).length + 1) + 1 := by omega
+    rw [e, List.drop_succ_cons]
+    have e2 : decDigits st ++ 70 :: decDigits fn = (decDigits st ++ [70]) ++ decDigits fn := by simp
+    have e3 : (decDigits st).length + 1 = (decDigits st ++ [70]).length := by simp
+    rw [e2, e3, List.drop_left]
+  simp only [h1, h2, atoi_decDigits st (by omega), atoi_decDigits fn (by omega)]
+  have c1 : (decide ((0 : Int) ≤ (st : Int)) && decide ((st : Int) < 128)) = true := by
+    simp; omega
+  have c2 : (decide ((0 : Int) ≤ (fn : Int)) && decide ((fn : Int) < 256)) = true := by
+    simp; omega
+  simp only [c1, c2, if_true]
+
+
+/-- the tokens of a printed message -/
+def msgToks (m : Msg) : List Tok :=
+  sfTok m.stream.toNat m.function.toNat ::
+    ((if m.waitBit == 1 then [tk .waitBit [87]] else if m.waitBit == 2 then [tk .waitBit [91, 87, 93]] else []) ++
+     tk .direction m.direction :: ((if m.name.isEmpty then [] else [tk .msgName m.name]) ++
+      (itemToks m.item ++ [tk .msgEnd [46]])))
+
+/-- what a printed message can say about a message: everything but the session -/
+def unaddressed (m : Msg) : Msg := { m with sessionID := -1, sysBytes := [0, 0, 0, 0] }
+
+/-- NewDataMessage on the fields of a valid message gives that message, unaddressed -/
+theorem mkMsg_valid (m : Msg) (h : m.valid = true) :
+    mkMsg m.name m.stream m.function m.waitBit m.direction m.item = some (unaddressed m) := by
+  unfold mkMsg checked
+  have hv : Msg.valid ⟨m.name, m.stream, m.function, m.waitBit, m.direction, m.item, -1, [0, 0, 0, 0]⟩ = true := by
+    simp only [Msg.valid, Bool.and_eq_true, decide_eq_true_eq] at h ⊢
+    exact ⟨⟨⟨h.1.1.1, by decide⟩, by decide⟩, h.2⟩
+  rw [if_pos hv]
+  rfl
+
+
+theorem state_pop (s : PS) (t : Tok) (r : List Tok) (h : s.toks = t :: r) : s.pop = { s with toks := r } := by
+  cases s; simp only [PS.pop] at *; simp_all
+
+theorem peek_cons (s : PS) (t : Tok) (r : List Tok) (h : s.toks = t :: r) : s.peek = t := by
+  simp [PS.peek, h]
+
+/-- the optional wait bit, as printed -/
+theorem waitBitOf_printed (fn wb : Int) (hwb : wb = 0 ∨ wb = 1 ∨ wb = 2) (hodd : wb = 1 → fn % 2 ≠ 0)
+    (s : PS) (d : Tok) (r : List Tok) (hd : d.kind = .direction)
+    (hs : s.toks = (if wb == 1 then [tk .waitBit [87]] else if wb == 2 then [tk .waitBit [91, 87, 93]] else []) ++ d :: r) :
+    waitBitOf fn s = (wb, { s with toks := d :: r }) := by
+  rcases hwb with h | h | h <;> subst h
+  · have hs' : s.toks = d :: r := by simpa using hs
+    unfold waitBitOf
+    simp only [peek_cons s d r hs', hd]
+    have : (Kind.direction == Kind.waitBit) = false := rfl
+    simp only [this, Bool.false_eq_true, if_false]
+    cases s; simp_all
+  · have hs' : s.toks = tk .waitBit [87] :: d :: r := by simpa using hs
+    unfold waitBitOf
+    simp only [peek_cons s _ _ hs', state_pop s _ _ hs', tk]
+    have h1 : (Kind.waitBit == Kind.waitBit) = true := rfl
+    have h2 : (([87] : Bytes) == [87]) = true := by decide
+    have h3 : (fn % 2 == 0) = false := by simpa using hodd rfl
+    simp only [h1, h2, h3, if_true, Bool.false_eq_true, if_false]
+  · have hs' : s.toks = tk .waitBit [91, 87, 93] :: d :: r := by simpa using hs
+    unfold waitBitOf
+    simp only [peek_cons s _ _ hs', state_pop s _ _ hs', tk]
+    have h1 : (Kind.waitBit == Kind.waitBit) = true := rfl
+    have h2 : (([91, 87, 93] : Bytes) == [87]) = false := by decide
+    simp only [h1, h2, if_true, Bool.false_eq_true, if_false]
+
+theorem directionOf_printed (dir : Bytes) (s : PS) (r : List Tok) (hs : s.toks = tk .direction dir :: r) :
+    directionOf s = (dir, { s with toks := r }) := by
+  unfold directionOf
+  simp only [peek_cons s _ _ hs, state_pop s _ _ hs, tk]
+  have : (Kind.direction == Kind.direction) = true := rfl
+  simp only [this, if_true]
+
+theorem nameOf_printed (name : Bytes) (s : PS) (nx : Tok) (r : List Tok) (hnx : nx.kind ≠ .msgName)
+    (hs : s.toks = (if name.isEmpty then [] else [tk .msgName name]) ++ nx :: r) :
+    nameOf s = (name, { s with toks := nx :: r }) := by
+  by_cases he : name.isEmpty = true
+  · have hn : name = [] := by simpa using he
+    have hs' : s.toks = nx :: r := by simpa [he] using hs
+    unfold nameOf
+    simp only [peek_cons s _ _ hs']
+    have : (nx.kind == Kind.msgName) = false := by
+      cases hk : nx.kind <;> first | rfl | exact absurd hk hnx
+    simp only [this, Bool.false_eq_true, if_false, hn]
+    cases s; simp_all
+  · have hs' : s.toks = tk .msgName name :: nx :: r := by simpa [he] using hs
+    unfold nameOf
+    simp only [peek_cons s _ _ hs', state_pop s _ _ hs', tk]
+    have : (Kind.msgName == Kind.msgName) = true := rfl
+    simp only [this, if_true]
+
+
+/-- the item of a message the printed form can express: nothing, or a clean well-formed tree with
+distinct names and its ellipses numbered in order -/
+def ItemOK (it : Tmpl) (e' : Nat) : Prop :=
+  (it = .empty ∧ e' = 0) ∨ (it.wf = true ∧ cleanT it = true ∧ FreshT [] it ∧ ellAfter 0 it = some e')
+
+theorem msgItem_printed (it : Tmpl) (e' : Nat) (hok : ItemOK it e') (s : PS) (r : List Tok)
+    (hs : s.toks = itemToks it ++ tk .msgEnd [46] :: r) (hn : s.names = []) (he : s.ell = 0) (hskip : s.skipSize = false) :
+    msgItem s = (.ok it, { s with toks := tk .msgEnd [46] :: r, names := namesAfter [] it, ell := e' }) := by
+  rcases hok with ⟨hit, hz⟩ | ⟨hw, hc, hf, hel⟩
+  · subst hit; subst hz
+    have hs' : s.toks = tk .msgEnd [46] :: r := by simpa [itemToks] using hs
+    unfold msgItem
+    simp only [peek_cons s _ _ hs', tk]
+    have : (Kind.msgEnd == Kind.msgEnd) = true := rfl
+    simp only [this, if_true, namesAfter]
+    cases s; simp_all [tk]
+  · obtain ⟨ts, hts⟩ := itemToks_cons it hc
+    have hp : s.peek = tk .lab [60] := by simp [PS.peek, hs, hts]
+    unfold msgItem
+    simp only [hp]
+    have hkk : (tk Kind.lab [60]).kind = Kind.lab := rfl
+    simp only [hkk]
+    have h1 : (Kind.lab == Kind.msgEnd) = false := rfl
+    have h2 : (Kind.lab == Kind.lab) = true := rfl
+    simp only [h1, h2, Bool.false_eq_true, if_false, if_true]
+    have := (parse_toks (s.toks.length + 1)).1 it s (tk .msgEnd [46] :: r) e'
+      (by rw [hs]; simp; omega) hw hc hs hskip (by rw [hn]; exact hf) (by rw [he]; exact hel)
+    rw [this, hn]
+
+/-- **Parser half of the round trip for a message**: parseMessage on the printed tokens of a
+valid message gives the message back (unaddressed: the printed form does not carry the session) -/
+theorem parseMessage_printed (m : Msg) (hv : m.valid = true) (e' : Nat) (hok : ItemOK m.item e')
+    (s : PS) (r : List Tok) (hs : s.toks = msgToks m ++ r) (hskip : s.skipSize = false) :
+    parseMessage s = (some (some (unaddressed m)), { s with toks := r, names := namesAfter [] m.item, ell := e' }) := by
+  have hvv := hv
+  simp only [Msg.valid, Bool.and_eq_true, decide_eq_true_eq, Bool.not_eq_true', Bool.and_eq_false_iff,
+    Bool.or_eq_true, beq_iff_eq] at hvv
+  obtain ⟨⟨⟨⟨⟨⟨⟨_, hst⟩, hfn⟩, hwf⟩, hwb⟩, _⟩, _⟩, _⟩ := hvv
+  have hst' : ((m.stream.toNat : Nat) : Int) = m.stream := by omega
+  have hfn' : ((m.function.toNat : Nat) : Int) = m.function := by omega
+  unfold parseMessage
+  have hs0 : s.resetScope.toks = msgToks m ++ r := hs
+  have hp : s.resetScope.peek = sfTok m.stream.toNat m.function.toNat := by
+    simp [PS.peek, hs0, msgToks]
+  simp only [hp]
+  have hk : ((sfTok m.stream.toNat m.function.toNat).kind != Kind.streamFunction) = false := rfl
+  simp only [hk, Bool.false_eq_true, if_false]
+  rw [streamFunction_sf _ _ _ (by omega) (by omega), hst', hfn']
+  simp only
+  -- the state after the stream/function token
+  have hpop : s.resetScope.pop.toks =
+      (if m.waitBit == 1 then [tk .waitBit [87]] else if m.waitBit == 2 then [tk .waitBit [91, 87, 93]] else []) ++
+        tk .direction m.direction :: ((if m.name.isEmpty then [] else [tk .msgName m.name]) ++
+          (itemToks m.item ++ tk .msgEnd [46] :: r)) := by
+    simp [PS.pop, hs0, msgToks]
+  have hwb3 : m.waitBit = 0 ∨ m.waitBit = 1 ∨ m.waitBit = 2 := by omega
+  have hodd : m.waitBit = 1 → m.function % 2 ≠ 0 := by
+    intro h1
+    rcases hwf with h | h
+    · exact absurd h1 (by simpa using h)
+    · simpa using h
+  rw [waitBitOf_printed m.function m.waitBit hwb3 hodd s.resetScope.pop (tk .direction m.direction) _ rfl hpop]
+  simp only
+  rw [directionOf_printed m.direction _ _ rfl]
+  simp only
+  have hnx : ∀ (ts : List Tok), ∃ nx r', itemToks m.item ++ tk .msgEnd [46] :: r = nx :: r' ∧ nx.kind ≠ .msgName := by
+    intro _
+    rcases hok with ⟨hit, _⟩ | ⟨_, hc, _, _⟩
+    · exact ⟨tk .msgEnd [46], r, by simp [hit, itemToks], by decide⟩
+    · obtain ⟨ts, hts⟩ := itemToks_cons m.item hc
+      exact ⟨tk .lab [60], ts ++ tk .msgEnd [46] :: r, by simp [hts], by decide⟩
+  obtain ⟨nx, r', hnxr, hnk⟩ := hnx []
+  rw [nameOf_printed m.name _ nx r' hnk (by simp [hnxr])]
+  simp only
+  rw [msgItem_printed m.item e' hok _ r (by simp [hnxr]) rfl rfl (by simpa [PS.pop, PS.resetScope] using hskip)]
+  simp only
+  unfold finishMsg
+  simp only [PS.peek, tk]
+  have hme : (Kind.msgEnd != Kind.msgEnd) = false := rfl
+  simp only [hme, Bool.false_eq_true, if_false, mkMsg_valid m hv]
+  cases s
+  simp [PS.pop, PS.resetScope]
+
+
+def eofTok : Tok := tk .eof [69, 79, 70]
+
+theorem msgToks_cons (m : Msg) : ∃ ts, msgToks m = sfTok m.stream.toNat m.function.toNat :: ts := ⟨_, rfl⟩
+
+/-- the message loop over the printed tokens of any number of messages -/
+theorem parseLoop_printed : ∀ (ms : List Msg) (fuel : Nat) (s : PS) (acc : List Msg),
+    (∀ m ∈ ms, m.valid = true ∧ ∃ e', ItemOK m.item e') → ms.length < fuel →
+    s.toks = ms.flatMap msgToks ++ [eofTok] → s.skipSize = false →
+    ∃ s', parseLoop fuel s acc = some (acc.reverse ++ ms.map unaddressed, s') ∧ s'.errs = s.errs ∧ s'.warns = s.warns := by
+  intro ms
+  induction ms with
+  | nil =>
+    intro fuel s acc _ hf hs _
+    cases fuel with
+    | zero => omega
+    | succ n =>
+      have hp : s.peek = eofTok := by simp [PS.peek, hs]
+      refine ⟨s, ?_, rfl, rfl⟩
+      rw [parseLoop]
+      have hk : (s.peek.kind == Kind.eof) = true := by rw [hp]; rfl
+      simp only [hk, if_true, List.map_nil, List.append_nil]
+  | cons m r ih =>
+    intro fuel s acc hall hf hs hskip
+    cases fuel with
+    | zero => omega
+    | succ n =>
+      obtain ⟨hv, e', hok⟩ := hall m (by simp)
+      have hs' : s.toks = msgToks m ++ (r.flatMap msgToks ++ [eofTok]) := by simp [hs]
+      obtain ⟨ts, hts⟩ := msgToks_cons m
+      have hp : s.peek = sfTok m.stream.toNat m.function.toNat := by simp [PS.peek, hs', hts]
+      have hm := parseMessage_printed m hv e' hok s _ hs' hskip
+      obtain ⟨s', h1, h2, h3⟩ := ih n
+        { s with toks := r.flatMap msgToks ++ [eofTok], names := namesAfter [] m.item, ell := e' } (unaddressed m :: acc)
+        (fun x hx => hall x (by simp [hx])) (by simpa using hf) rfl hskip
+      refine ⟨s', ?_, h2, h3⟩
+      rw [parseLoop]
+      have hk : (s.peek.kind == Kind.eof) = false := by rw [hp]; rfl
+      simp only [hk, Bool.false_eq_true, if_false, hm, h1]
+      simp
+
+/-- **Parser half of the print → parse round trip.** The token stream of the printed form of any
+number of valid messages (items clean, names distinct, ellipses numbered in order) parses to
+exactly these messages — unaddressed, since the printed form does not carry the session —
+with no error and no warning. -/
+theorem parseToks_printed (ms : List Msg) (hall : ∀ m ∈ ms, m.valid = true ∧ ∃ e', ItemOK m.item e') :
+    parseToks (ms.flatMap msgToks ++ [eofTok]) = .done (ms.map unaddressed) [] [] := by
+  unfold parseToks
+  have hlen : ms.length < (ms.flatMap msgToks ++ [eofTok]).length + 1 := by
+    have : ms.length ≤ (ms.flatMap msgToks).length := by
+      clear hall
+      induction ms with
+      | nil => simp
+      | cons m r ih =>
+        obtain ⟨ts, hts⟩ := msgToks_cons m
+        simp only [List.flatMap_cons, List.length_append, List.length_cons, hts]
+        omega
+    rw [List.length_append]
+    simp only [List.length_singleton]
+    omega
+  obtain ⟨s', h1, h2, h3⟩ := parseLoop_printed ms _ { toks := ms.flatMap msgToks ++ [eofTok] } [] hall hlen rfl rfl
+  rw [h1]
+  simp only [List.reverse_nil, List.nil_append]
+  have he : s'.errs = [] := h2
+  have hw : s'.warns = [] := h3
+  simp [he, hw]
+
+
+/-! ### the freshness condition follows from well-formedness -/
+
+theorem nodup_append (a b : List Name) (h : nodupNames (a ++ b) = true) :
+    nodupNames a = true ∧ nodupNames b = true ∧ ∀ v ∈ a, v ∉ b := by
+  induction a with
+  | nil => exact ⟨rfl, by simpa using h, by simp⟩
+  | cons x r ih =>
+    simp only [List.cons_append, nodupNames, Bool.and_eq_true, Bool.not_eq_true'] at h
+    obtain ⟨h1, h2, h3⟩ := ih h.2
+    have hx : x ∉ r ∧ x ∉ b := by
+      have : (r ++ b).contains x = false := h.1
+      simp only [List.contains_eq_mem, List.mem_append, decide_eq_false_iff_not, not_or] at this
+      exact this
+    refine ⟨by simp [nodupNames, h1, hx.1], h2, ?_⟩
+    intro v hv
+    rcases List.mem_cons.mp hv with rfl | hv
+    · exact hx.2
+    · exact h3 v hv
+
+theorem contains_false_iff (l : List Name) (v : Name) : l.contains v = false ↔ v ∉ l := by simp
+
+mutual
+theorem fresh_of_nodup : ∀ (t : Tmpl) (names : List Name), cleanT t = true → nodupNames t.vars = true →
+    (∀ v ∈ t.vars, v ∉ names) →
+    FreshT names t ∧ (∀ v, v ∈ namesAfter names t → v ∈ names ∨ v ∈ t.vars)
+  | .list xs, names, hc, hn, hd => by
+    simpa [FreshT, namesAfter, Tmpl.vars] using freshS_of_nodup xs names (by simpa [cleanT] using hc) (by simpa [Tmpl.vars] using hn) (by simpa [Tmpl.vars] using hd)
+  | .ascii _, names, _, _, _ => ⟨trivial, fun v hv => Or.inl hv⟩
+  | .asciiVar n _ _, names, _, _, hd => by
+    refine ⟨?_, ?_⟩
+    · simp only [FreshT, contains_false_iff]; exact hd n (by simp [Tmpl.vars])
+    · intro v hv
+      simp only [namesAfter, List.mem_cons] at hv
+      rcases hv with rfl | hv
+      · right; simp [Tmpl.vars]
+      · left; exact hv
+  | .binary xs, names, _, hn, hd => ⟨⟨hn, fun v hv => (contains_false_iff _ _).mpr (hd v hv)⟩, fun v hv => by
+      simp only [namesAfter, List.mem_append, List.mem_reverse] at hv
+      rcases hv with hv | hv
+      · right; exact hv
+      · left; exact hv⟩
+  | .boolean xs, names, _, hn, hd => ⟨⟨hn, fun v hv => (contains_false_iff _ _).mpr (hd v hv)⟩, fun v hv => by
+      simp only [namesAfter, List.mem_append, List.mem_reverse] at hv
+      rcases hv with hv | hv
+      · right; exact hv
+      · left; exact hv⟩
+  | .int _ xs, names, _, hn, hd => ⟨⟨hn, fun v hv => (contains_false_iff _ _).mpr (hd v hv)⟩, fun v hv => by
+      simp only [namesAfter, List.mem_append, List.mem_reverse] at hv
+      rcases hv with hv | hv
+      · right; exact hv
+      · left; exact hv⟩
+  | .uint _ xs, names, _, hn, hd => ⟨⟨hn, fun v hv => (contains_false_iff _ _).mpr (hd v hv)⟩, fun v hv => by
+      simp only [namesAfter, List.mem_append, List.mem_reverse] at hv
+      rcases hv with hv | hv
+      · right; exact hv
+      · left; exact hv⟩
+  | .float _ xs, names, hc, _, _ => by simp [cleanT] at hc
+  | .empty, names, hc, _, _ => by simp [cleanT] at hc
+theorem freshS_of_nodup : ∀ (xs : Slots) (names : List Name), cleanS xs = true → nodupNames xs.vars = true →
+    (∀ v ∈ xs.vars, v ∉ names) →
+    FreshS names xs ∧ (∀ v, v ∈ namesAfterS names xs → v ∈ names ∨ v ∈ xs.vars)
+  | .nil, names, _, _, _ => ⟨trivial, fun v hv => Or.inl hv⟩
+  | .item t r, names, hc, hn, hd => by
+    simp only [cleanS, Bool.and_eq_true] at hc
+    have hvars : (Slots.item t r).vars = t.vars ++ r.vars := by
+      cases t <;> first | rfl | (simp [cleanT] at hc)
+    rw [hvars] at hn hd
+    obtain ⟨hn1, hn2, hdis⟩ := nodup_append _ _ hn
+    obtain ⟨ft, mt⟩ := fresh_of_nodup t names hc.1 hn1 (fun v hv => hd v (by simp [hv]))
+    have hd2 : ∀ v ∈ r.vars, v ∉ namesAfter names t := by
+      intro v hv hmem
+      rcases mt v hmem with h | h
+      · exact hd v (by simp [hv]) h
+      · exact hdis v h hv
+    obtain ⟨fr, mr⟩ := freshS_of_nodup r (namesAfter names t) hc.2 hn2 hd2
+    refine ⟨⟨ft, fr⟩, ?_⟩
+    intro v hv
+    simp only [namesAfterS] at hv
+    rw [hvars]
+    rcases mr v hv with h | h
+    · rcases mt v h with h' | h'
+      · left; exact h'
+      · right; simp [h']
+    · right; simp [h]
+  | .var n r, names, hc, hn, hd => by
+    simp only [cleanS] at hc
+    simp only [Slots.vars, nodupNames, Bool.and_eq_true, Bool.not_eq_true'] at hn
+    have hnr : n ∉ r.vars := (contains_false_iff _ _).mp hn.1
+    by_cases he : isEllipsis n = true
+    · obtain ⟨fr, mr⟩ := freshS_of_nodup r names hc hn.2 (fun v hv => hd v (by simp [Slots.vars, hv]))
+      refine ⟨by simpa [FreshS, he] using fr, ?_⟩
+      intro v hv
+      simp only [namesAfterS, he, if_true] at hv
+      rcases mr v hv with h | h
+      · left; exact h
+      · right; simp [Slots.vars, h]
+    · have he' : isEllipsis n = false := by simpa using he
+      have hd2 : ∀ v ∈ r.vars, v ∉ n :: names := by
+        intro v hv hmem
+        rcases List.mem_cons.mp hmem with rfl | h
+        · exact hnr hv
+        · exact hd v (by simp [Slots.vars, hv]) h
+      obtain ⟨fr, mr⟩ := freshS_of_nodup r (n :: names) hc hn.2 hd2
+      refine ⟨?_, ?_⟩
+      · simp only [FreshS, he', Bool.false_eq_true, if_false, contains_false_iff]
+        exact ⟨hd n (by simp [Slots.vars]), fr⟩
+      · intro v hv
+        simp only [namesAfterS, he', Bool.false_eq_true, if_false] at hv
+        rcases mr v hv with h | h
+        · rcases List.mem_cons.mp h with rfl | h'
+          · right; simp [Slots.vars]
+          · left; exact h'
+        · right; simp [Slots.vars, h]
+end
+
+/-- for a well-formed tree every name is new to an empty table -/
+theorem freshT_nil (t : Tmpl) (hw : t.wf = true) (hc : cleanT t = true) : FreshT [] t := by
+  have hn : nodupNames t.vars = true := by
+    cases t with
+    | list xs => simp only [Tmpl.wf, Bool.and_eq_true] at hw; exact hw.2
+    | ascii s => rfl
+    | asciiVar n a b => rfl
+    | empty => rfl
+    | binary xs => simp only [Tmpl.wf, slotsOk, Bool.and_eq_true] at hw; exact hw.2.2
+    | boolean xs => simp only [Tmpl.wf, slotsOk, Bool.and_eq_true] at hw; exact hw.2.2
+    | int w xs => simp only [Tmpl.wf, slotsOk, Bool.and_eq_true] at hw; exact hw.2.2
+    | uint w xs => simp only [Tmpl.wf, slotsOk, Bool.and_eq_true] at hw; exact hw.2.2
+    | float w xs => simp only [Tmpl.wf, slotsOk, Bool.and_eq_true] at hw; exact hw.2.2
+  exact (fresh_of_nodup t [] hc hn (by simp)).1
+
 end Sml
 end Secs
